@@ -313,7 +313,7 @@ def main_check(modname: str, tier: str, seed: int, *, budget_s: float | None, ma
         known = load_known(prop)
         # 1. known-finding replays first (DESIGN 2.7)
         for kid, entry in sorted(known.items()):
-            vals = entry.get("replay_values")
+            vals = mod.known_replay_values(entry) if hasattr(mod, "known_replay_values") else entry.get("replay_values")
             if vals is None:
                 continue
             r = run_once(mod.LEGS[entry.get("leg", mod.DEFAULT_LEG)], prop, values=vals, tier=tier)
